@@ -18,7 +18,7 @@ pub fn def() -> CheckDef {
 fn meta(_ctx: &Ctx) -> Meta {
     Meta {
         level: "exploration",
-        rule: "packages synthesised by the harness encoder around a real header + payload: every subset of the four digest tags (MD5 over header+payload, SHA-1 and SHA-256 over the header, SHA-256 payload digest) x each present digest correct or wrong (first/middle/last character, wrong length), payload digest algorithm in {8 supported; 1,9,10,11,12,14 known-unsupported; 0,7,99,u32::MAX unknown}, digest arrays with 0/1/2 items; the asset packages and built/signed packages as they are; and every single-bit flip of header and payload of packages carrying all four digests. verify_digests() runs in worker processes (release + verifdbg); the expected verdict (Ok / digest mismatch / error for unsupported algorithm) is recomputed per input from the bytes by the independent decoder. distinct_nontrivial = distinct inputs with a definite expected verdict that the library parsed".into(),
+        rule: "packages synthesised by the harness encoder around a real header + payload: every subset of the four digest tags (MD5 over header+payload, SHA-1 and SHA-256 over the header, SHA-256 payload digest) x each present digest correct or wrong (first/middle/last character, wrong length), payload digest algorithm in {8 supported; 1,9,10,11,12,14 known-unsupported; 0,7,99,u32::MAX unknown}, digest arrays with 0/1/2 items; the asset packages and built/signed packages as they are; and every single-bit flip of header and payload of packages carrying all four digests. verify_digests() runs in worker processes (release + verifdbg); the expected verdict (Ok / digest mismatch / error for unsupported algorithm) is recomputed per input from the bytes by the independent decoder. Wrong digest values include other lengths (shorter, longer, empty, half, doubled) and pairs of wrong symbols whose differences cancel (transposition, same bit in two symbols). distinct_nontrivial = distinct inputs with a definite expected verdict that the library parsed".into(),
         assumptions: vec!["digests cover the canonical header image (reserved intro bytes zero), as rpm itself hashes".into()],
         floor_distinct: 1000,
     }
@@ -155,7 +155,31 @@ fn wrong_hex(s: &str, how: usize) -> String {
         4 => b.push(b'0'),
         5 => b.clear(),
         6 => b.truncate(b.len() / 2),
-        _ => b.extend_from_slice(s.as_bytes()),
+        7 => b.extend_from_slice(s.as_bytes()),
+        // two wrong symbols whose differences cancel: a transposition ...
+        8 => {
+            if let Some(i) = (0..b.len() - 1).find(|i| b[*i] != b[*i + 1]) {
+                b.swap(i, i + 1);
+            } else {
+                b[0] = flip(b[0]);
+            }
+        }
+        // ... and the same bit flipped in two symbols (staying inside the hex alphabet)
+        _ => {
+            let tog = |c: u8| match c {
+                b'0'..=b'9' => (c ^ 1).clamp(b'0', b'9'),
+                _ => ((c - b'a') ^ 1) + b'a',
+            };
+            // two symbols of the same kind, so that both differences are the same bit pattern
+            let digits: Vec<usize> = (0..b.len()).filter(|i| b[*i].is_ascii_digit()).collect();
+            let letters: Vec<usize> = (0..b.len()).filter(|i| !b[*i].is_ascii_digit()).collect();
+            let pick = if digits.len() >= 2 { digits } else { letters };
+            let (i, j) = (pick[0], pick[pick.len() - 1]);
+            b[i] = tog(b[i]);
+            if j != i {
+                b[j] = tog(b[j]);
+            }
+        }
     }
     String::from_utf8(b).unwrap()
 }
@@ -170,7 +194,7 @@ fn synthesise(rng: &mut Rng, thorough: bool) -> Vec<(String, Vec<u8>)> {
         let pd = hex::encode(sha2::Sha256::digest(payload));
         // payload digest variants: (label, Option<(digest items, algo)>)
         let mut pvars: Vec<(String, Option<(Vec<String>, Option<u32>)>)> = vec![("no-payload-digest".into(), None), ("payload-ok".into(), Some((vec![pd.clone()], Some(8))))];
-        for how in 0..8 {
+        for how in 0..10 {
             pvars.push((format!("payload-wrong{how}"), Some((vec![wrong_hex(&pd, how)], Some(8)))));
         }
         for a in &algos[1..] {
@@ -201,9 +225,9 @@ fn synthesise(rng: &mut Rng, thorough: bool) -> Vec<(String, Vec<u8>)> {
             let sha256 = hex::encode(sha2::Sha256::digest(&hdr));
             // each header digest: 0 absent, 1 right, 2.. wrong variants (the quick tier keeps one
             // same-length, one shorter, one longer and the empty value)
-            let hows: &[usize] = if thorough { &[0, 1, 2, 3, 4, 5, 6, 7] } else { &[0, 3, 4, 5] };
+            let hows: &[usize] = if thorough { &[0, 1, 2, 3, 4, 5, 6, 7, 8, 9] } else { &[0, 3, 5, 8, 9] };
             let states = 2 + hows.len();
-            for m in 0..if thorough { 6 } else { 5 } {
+            for m in 0..if thorough { 8 } else { 7 } {
                 for s1 in 0..states {
                     for s2 in 0..states {
                         // the quick tier thins the product (all single/double combinations remain)
@@ -224,7 +248,18 @@ fn synthesise(rng: &mut Rng, thorough: bool) -> Vec<(String, Vec<u8>)> {
                                 2 => v[0] ^= 1,
                                 3 => v[15] ^= 0x80,
                                 4 => v.truncate(15),
-                                _ => v.push(0),
+                                5 => v.push(0),
+                                6 => {
+                                    if let Some(i) = (0..15).find(|i| v[*i] != v[*i + 1]) {
+                                        v.swap(i, i + 1);
+                                    } else {
+                                        v[0] ^= 1;
+                                    }
+                                }
+                                _ => {
+                                    v[2] ^= 0x10;
+                                    v[9] ^= 0x10;
+                                }
                             }
                             sitems.push((tag::SIG_MD5, Val::Bin(v)));
                         }
